@@ -28,42 +28,62 @@ namespace ba = bfl::any;
 // word tells a live object from a destroyed / never constructed one
 static const unsigned GOOD = 0x600DF00Du, GONE = 0xDEADDEADu;
 
-struct Probe {
-    static long live, ctors, dtors, bad;
+struct Probe {   // no move operations: moving a Probe copies it
+    static long live, ctors, dtors, bad, copies;
     int v; unsigned magic;
     explicit Probe(int x) : v(x), magic(GOOD) { live++; ctors++; }
-    Probe(const Probe& o) : v(o.v), magic(GOOD) { if (o.magic != GOOD) bad++; live++; ctors++; }
+    Probe(const Probe& o) : v(o.v), magic(GOOD) { if (o.magic != GOOD) bad++; live++; ctors++; copies++; }
     Probe& operator=(const Probe& o) { if (o.magic != GOOD || magic != GOOD) bad++; v = o.v; return *this; }
     ~Probe() { if (magic != GOOD) bad++; magic = GONE; live--; dtors++; }
 };
-long Probe::live = 0, Probe::ctors = 0, Probe::dtors = 0, Probe::bad = 0;
+long Probe::live = 0, Probe::ctors = 0, Probe::dtors = 0, Probe::bad = 0, Probe::copies = 0;
 
 // move-aware: a moved-from instance is marked and no longer decodes
 struct MProbe {
-    static long live, ctors, dtors, bad, moves;
+    static long live, ctors, dtors, bad, moves, copies;
     int v; bool moved_from; unsigned magic;
     explicit MProbe(int x) : v(x), moved_from(false), magic(GOOD) { live++; ctors++; }
-    MProbe(const MProbe& o) : v(o.v), moved_from(o.moved_from), magic(GOOD) { if (o.magic != GOOD) bad++; live++; ctors++; }
+    MProbe(const MProbe& o) : v(o.v), moved_from(o.moved_from), magic(GOOD) { if (o.magic != GOOD) bad++; live++; ctors++; copies++; }
     MProbe(MProbe&& o) noexcept : v(o.v), moved_from(o.moved_from), magic(GOOD) { if (o.magic != GOOD) bad++; o.v = -777; o.moved_from = true; live++; ctors++; moves++; }
     MProbe& operator=(const MProbe& o) { if (o.magic != GOOD || magic != GOOD) bad++; v = o.v; moved_from = o.moved_from; return *this; }
     MProbe& operator=(MProbe&& o) noexcept { if (o.magic != GOOD || magic != GOOD) bad++; v = o.v; moved_from = o.moved_from; o.v = -777; o.moved_from = true; return *this; }
     ~MProbe() { if (magic != GOOD) bad++; magic = GONE; live--; dtors++; }
 };
-long MProbe::live = 0, MProbe::ctors = 0, MProbe::dtors = 0, MProbe::bad = 0, MProbe::moves = 0;
+long MProbe::live = 0, MProbe::ctors = 0, MProbe::dtors = 0, MProbe::bad = 0, MProbe::moves = 0, MProbe::copies = 0;
+
+// copy constructor throws while armed (strong exception guarantee of the assignments); no move operations
+struct CopyThrows {};
+struct TProbe {
+    static long live, ctors, dtors, bad, copies;
+    static bool armed;
+    int v; unsigned magic;
+    explicit TProbe(int x) : v(x), magic(GOOD) { live++; ctors++; }
+    TProbe(const TProbe& o) : v(o.v), magic(GOOD) { if (armed) throw CopyThrows(); if (o.magic != GOOD) bad++; live++; ctors++; copies++; }
+    TProbe& operator=(const TProbe& o) { if (o.magic != GOOD || magic != GOOD) bad++; v = o.v; return *this; }
+    ~TProbe() { if (magic != GOOD) bad++; magic = GONE; live--; dtors++; }
+};
+long TProbe::live = 0, TProbe::ctors = 0, TProbe::dtors = 0, TProbe::bad = 0, TProbe::copies = 0;
+bool TProbe::armed = false;
 
 // ---- value <-> small integer code, per held type
 template <class T> struct Codec;
 template <> struct Codec<int> {
     static int make(long v) { return static_cast<int>(v); }
+    static int blank() { return 0; }
+    static bool moved(const int&) { return false; }
     static bool decode(const int& x, long& v) { v = x; return true; }
 };
 template <> struct Codec<double> {
     static double make(long v) { return static_cast<double>(v) + 0.5; }
+    static double blank() { return 0.0; }
+    static bool moved(const double&) { return false; }
     static bool decode(const double& x, long& v) { v = static_cast<long>(std::floor(x)); return static_cast<double>(v) + 0.5 == x; }
 };
 template <> struct Codec<std::string> {
     // longer than any small-string buffer, so that the characters live on the heap
     static std::string make(long v) { return "value=" + std::to_string(v) + ";" + std::string(40, 'x'); }
+    static std::string blank() { return std::string(); }
+    static bool moved(const std::string& s) { return s.empty(); }   // what a moved-from std::string is in libstdc++
     static bool decode(const std::string& s, long& v) {
         if (s.size() < 48 || s.compare(0, 6, "value=") != 0) return false;
         std::size_t semi = s.find(';');
@@ -79,6 +99,8 @@ template <> struct Codec<MatrixXd> {
         for (long i = 0; i < r; i++) for (long j = 0; j < 2; j++) M(i, j) = static_cast<double>(v) + 0.25 * static_cast<double>(2 * i + j);
         return M;
     }
+    static MatrixXd blank() { return MatrixXd(); }
+    static bool moved(const MatrixXd& M) { return M.size() == 0; }   // moved-from / swapped with an empty matrix
     static bool decode(const MatrixXd& M, long& v) {
         if (M.cols() != 2 || M.rows() < 1 || M.rows() > 3) return false;
         v = static_cast<long>(M(0, 0));
@@ -88,14 +110,24 @@ template <> struct Codec<MatrixXd> {
 };
 template <> struct Codec<Probe> {
     static Probe make(long v) { return Probe(static_cast<int>(v)); }
+    static Probe blank() { return Probe(0); }
+    static bool moved(const Probe&) { return false; }
     static bool decode(const Probe& p, long& v) { v = p.v; return p.magic == GOOD; }
 };
 template <> struct Codec<MProbe> {
     static MProbe make(long v) { return MProbe(static_cast<int>(v)); }
+    static MProbe blank() { return MProbe(0); }
+    static bool moved(const MProbe& p) { return p.magic == GOOD && p.moved_from; }
     static bool decode(const MProbe& p, long& v) { v = p.v; return p.magic == GOOD && !p.moved_from; }
 };
+template <> struct Codec<TProbe> {
+    static TProbe make(long v) { return TProbe(static_cast<int>(v)); }
+    static TProbe blank() { return TProbe(0); }
+    static bool moved(const TProbe&) { return false; }
+    static bool decode(const TProbe& p, long& v) { v = p.v; return p.magic == GOOD; }
+};
 
-static const int NTYPES = 6;
+static const int NTYPES = 7;
 template <class F> void with_type(int t, F& f) {
     switch (t) {
         case 0: f.template run<int>(); break;
@@ -104,6 +136,7 @@ template <class F> void with_type(int t, F& f) {
         case 3: f.template run<MatrixXd>(); break;
         case 4: f.template run<Probe>(); break;
         case 5: f.template run<MProbe>(); break;
+        case 6: f.template run<TProbe>(); break;
         default: std::fprintf(stderr, "BFL_VERIF_HARNESS bad type index %d\n", t); std::exit(3);
     }
 }
@@ -116,12 +149,19 @@ static std::string type_name(const std::type_info& ti) {
     if (ti == typeid(MatrixXd)) return "3";
     if (ti == typeid(Probe)) return "4";
     if (ti == typeid(MProbe)) return "5";
+    if (ti == typeid(TProbe)) return "6";
     return "other";
 }
 
-template <class T> std::string dec(const T& x) { long v; return Codec<T>::decode(x, v) ? std::to_string(v) : std::string("?"); }
+// the value code of an object; "m" for a moved-from object; "?" for anything else
+template <class T> std::string dec(const T& x) {
+    long v;
+    if (Codec<T>::moved(x)) return "m";
+    return Codec<T>::decode(x, v) ? std::to_string(v) : std::string("?");
+}
 
-// ---- the four observation casts of one held type on one container
+// ---- the six observation casts of one held type on one container:
+// T*, const T* (const any*), const T* via any_cast<const T>(any*), T by value, const T& (const any&), const T& (any&)
 struct Observe {
     Data* a; std::string out;
     template <class T> void run() {
@@ -129,11 +169,16 @@ struct Observe {
         out += ",";
         { vf::Entry e("any_cast<T>(const any*)"); const T* p = ba::any_cast<T>(static_cast<const Data*>(a)); out += p ? dec<T>(*p) : std::string("n"); }
         out += ",";
+        { vf::Entry e("any_cast<const T>(any*)"); const T* p = ba::any_cast<const T>(a); out += p ? dec<T>(*p) : std::string("n"); }
+        out += ",";
         { vf::Entry e("any_cast<T>(any&)");
           try { T x = ba::any_cast<T>(*a); out += dec<T>(x); } catch (const ba::bad_any_cast&) { out += "x"; } }
         out += ",";
-        { vf::Entry e("any_cast<T>(const any&)");
+        { vf::Entry e("any_cast<const T&>(const any&)");
           try { const T& x = ba::any_cast<const T&>(static_cast<const Data&>(*a)); out += dec<T>(x); } catch (const ba::bad_any_cast&) { out += "x"; } }
+        out += ",";
+        { vf::Entry e("any_cast<const T&>(any&)");
+          try { const T& x = ba::any_cast<const T&>(*a); out += dec<T>(x); } catch (const ba::bad_any_cast&) { out += "x"; } }
     }
 };
 
@@ -168,8 +213,23 @@ struct ValueAssign {  // operator=(T&&) with T deduced const T& / T& / T
         else { vf::Entry e("any::operator=(T&)"); *a = x; }
     }
 };
+struct ThrowingValue {  // any(const T&) / operator=(const T&) while T's copy constructor throws
+    Data*& slot; long v; bool assign; std::string res;
+    template <class T> void run() { std::fprintf(stderr, "BFL_VERIF_HARNESS valx/vasx need type 6\n"); std::exit(3); }
+};
+template <> void ThrowingValue::run<TProbe>() {
+    TProbe x = Codec<TProbe>::make(v);
+    const TProbe& cx = x;
+    TProbe::armed = true;
+    try {
+        if (assign) { vf::Entry e("any::operator=(const T&) throwing"); *slot = cx; }
+        else { vf::Entry e("any::any(const T&) throwing"); slot = new Data(cx); }
+        res = "unit";
+    } catch (const CopyThrows&) { res = "exn"; }
+    TProbe::armed = false;
+}
 struct CastOp {
-    Data* a; int form; std::string res;   // 0 ptr, 1 const ptr, 2 value, 3 T&, 4 const value, 5 rvalue
+    Data* a; int form; std::string res;   // 0 ptr, 1 const ptr, 2 value, 3 T&, 4 const value, 5 rvalue, 6 const T ptr, 7 const T&, 8/9 T&&
     template <class T> void run() {
         try {
             switch (form) {
@@ -179,6 +239,11 @@ struct CastOp {
                 case 3: { vf::Entry e("any_cast<T&>(any&)"); T& r = ba::any_cast<T&>(*a); res = "v" + dec<T>(r); break; }
                 case 4: { vf::Entry e("any_cast<T>(const any&)"); T x = ba::any_cast<T>(static_cast<const Data&>(*a)); res = "v" + dec<T>(x); break; }
                 case 5: { vf::Entry e("any_cast<T>(any&&)"); T x = ba::any_cast<T>(std::move(*a)); res = "v" + dec<T>(x); break; }
+                case 6: { vf::Entry e("any_cast<const T>(any*)"); const T* p = ba::any_cast<const T>(a); res = p ? "p" + dec<T>(*p) : std::string("pnull"); break; }
+                case 7: { vf::Entry e("any_cast<const T&>(any&)"); const T& r = ba::any_cast<const T&>(*a); res = "v" + dec<T>(r); break; }
+                // the form the library uses: move-construct / move-assign from the rvalue reference to the held object
+                case 8: { vf::Entry e("any_cast<T&&>(any&&) construct"); T x = ba::any_cast<T&&>(std::move(*a)); res = "v" + dec<T>(x); break; }
+                case 9: { vf::Entry e("any_cast<T&&>(any&&) assign"); T y = Codec<T>::blank(); y = ba::any_cast<T&&>(std::move(*a)); res = "v" + dec<T>(y); break; }
             }
         } catch (const ba::bad_any_cast& ex) {
             res = std::string(ex.what()) == "bad any_cast" ? "throw" : "throw-what";
@@ -210,9 +275,9 @@ static void run_case(const vf::Case& c) {
     {
         const long N = c.integer("pool");
         std::vector<Data*> slot(N, nullptr);
-        const long p0 = Probe::live, m0 = MProbe::live;
+        const long p0 = Probe::live, m0 = MProbe::live, t0 = TProbe::live;
         const long pc0 = Probe::ctors, pd0 = Probe::dtors, mc0 = MProbe::ctors, md0 = MProbe::dtors;
-        const long bad0 = Probe::bad + MProbe::bad;
+        const long bad0 = Probe::bad + MProbe::bad + TProbe::bad;
         vf::out_begin(c.id);
         size_t step = 0;
         for (const std::string& tok : c.word("ops")) {
@@ -223,6 +288,7 @@ static void run_case(const vf::Case& c) {
             auto live = [&](long d) { return ok(d) && slot[d] != nullptr; };
             auto isfree = [&](long d) { return ok(d) && slot[d] == nullptr; };
             std::string res = "skip";
+            const long kc4 = Probe::copies, kc5 = MProbe::copies, km5 = MProbe::moves, kc6 = TProbe::copies;
             if (k == "def") {
                 long d = idx(1);
                 if (isfree(d)) { vf::Entry e("any::any()"); slot[d] = new Data(); res = "unit"; }
@@ -271,11 +337,27 @@ static void run_case(const vf::Case& c) {
             } else if (k == "typ") {
                 long d = idx(1);
                 if (live(d)) { vf::Entry e("any::type"); std::string n = type_name(slot[d]->type()); res = n == "void" ? "tvoid" : "t" + n; }
-            } else if (k == "cp" || k == "ccp" || k == "cv" || k == "cr" || k == "ccv" || k == "crv") {
+            } else if (k == "valx" || k == "vasx") {
                 long d = idx(1);
-                int form = k == "cp" ? 0 : k == "ccp" ? 1 : k == "cv" ? 2 : k == "cr" ? 3 : k == "ccv" ? 4 : 5;
+                if (k == "valx" ? isfree(d) : live(d)) { ThrowingValue f{slot[d], idx(3), k == "vasx", ""}; with_type(static_cast<int>(idx(2)), f); res = f.res; }
+            } else if (k == "cpyx" || k == "casx") {
+                long d = idx(1), s = idx(2);
+                if (idx(3) != 6) { std::fprintf(stderr, "BFL_VERIF_HARNESS cpyx/casx need type 6\n"); std::exit(3); }
+                if ((k == "cpyx" ? isfree(d) : live(d)) && live(s)) {
+                    const Data& src = *slot[s];
+                    TProbe::armed = true;
+                    try {
+                        if (k == "cpyx") { vf::Entry e("any::any(const any&) throwing"); slot[d] = new Data(src); }
+                        else { vf::Entry e("any::operator=(const any&) throwing"); *slot[d] = src; }
+                        res = "unit";
+                    } catch (const CopyThrows&) { res = "exn"; }
+                    TProbe::armed = false;
+                }
+            } else if (k == "cp" || k == "ccp" || k == "cv" || k == "cr" || k == "ccv" || k == "crv" || k == "cpq" || k == "crq" || k == "xv" || k == "xa") {
+                long d = idx(1);
+                int form = k == "cp" ? 0 : k == "ccp" ? 1 : k == "cv" ? 2 : k == "cr" ? 3 : k == "ccv" ? 4 : k == "crv" ? 5 : k == "cpq" ? 6 : k == "crq" ? 7 : k == "xv" ? 8 : 9;
                 // the pointer forms accept a null operand (no container at this index)
-                if (form <= 1 ? true : live(d)) { CastOp f{ok(d) ? slot[d] : nullptr, form, ""}; with_type(static_cast<int>(idx(2)), f); res = f.res; }
+                if ((form <= 1 || form == 6) ? true : live(d)) { CastOp f{ok(d) ? slot[d] : nullptr, form, ""}; with_type(static_cast<int>(idx(2)), f); res = f.res; }
             } else if (k == "setp") {
                 long d = idx(1);
                 SetOp f{ok(d) ? slot[d] : nullptr, idx(3), false, ""}; with_type(static_cast<int>(idx(2)), f); res = f.res;
@@ -285,10 +367,14 @@ static void run_case(const vf::Case& c) {
             } else {
                 std::fprintf(stderr, "BFL_VERIF_HARNESS bad op token %s\n", tok.c_str()); std::exit(3);
             }
+            // constructions of probe objects during the operation itself (before the observation casts)
+            const std::string ktok = "K" + std::to_string(Probe::copies - kc4) + "," + std::to_string(MProbe::copies - kc5) + "," +
+                                     std::to_string(MProbe::moves - km5) + "," + std::to_string(TProbe::copies - kc6);
             std::vector<std::string> line;
             line.push_back(res);
             for (long i = 0; i < N; i++) line.push_back(slot_tok(slot[i]));
-            line.push_back("L" + std::to_string(Probe::live - p0) + "," + std::to_string(MProbe::live - m0));
+            line.push_back("L" + std::to_string(Probe::live - p0) + "," + std::to_string(MProbe::live - m0) + "," + std::to_string(TProbe::live - t0));
+            line.push_back(ktok);
             vf::out_word("r" + std::to_string(step++), line);
         }
         // end of the pool's scope: every container is destroyed
@@ -297,7 +383,8 @@ static void run_case(const vf::Case& c) {
         vf::out_int("mprobe_live_end", MProbe::live - m0);
         vf::out_int("probe_ctor_minus_dtor", (Probe::ctors - pc0) - (Probe::dtors - pd0));
         vf::out_int("mprobe_ctor_minus_dtor", (MProbe::ctors - mc0) - (MProbe::dtors - md0));
-        vf::out_int("probe_bad_lifetime_events", Probe::bad + MProbe::bad - bad0);
+        vf::out_int("tprobe_live_end", TProbe::live - t0);
+        vf::out_int("probe_bad_lifetime_events", Probe::bad + MProbe::bad + TProbe::bad - bad0);
     }
 }
 
